@@ -385,6 +385,30 @@ def m_ok_or_else(ctx):
     return ctx.fork([(tag == bv64(1), some), (tag == bv64(0), none)])
 
 
+def m_and_then(ctx):
+    """Option::and_then(opt, f): None -> None; Some(v) -> f(v) (closure body from the dump)."""
+    o, f = ctx.args
+    tag = _opt_tag(ctx, o, "Option")
+    if closure_of(ctx.eng, f) is None:
+        return ctx.eng.uninterpreted(ctx.st, ctx.frame, ctx.dest, ctx.dest_ty, ctx.ret_bb, ctx.callee, ctx.norm,
+                                     ctx.args, ctx.site)
+
+    def none(c2):
+        n = Node(fresh_root("e"), ty=c2.dest_ty or "Option")
+        n.tag = bv64(0)
+        n.variants = {}
+        return c2.ret(n)
+
+    def some(c2):
+        v = copy_node(payload(c2.eng, c2.args[0], "Some", 0))
+
+        def cont(eng, st, stash, ret):
+            return finish_call(eng, st, stash, copy_node(ret))
+        return c2.eng.call_closure(c2.st, closure_of(c2.eng, c2.args[1]), [v], call_stash(c2), cont)
+
+    return ctx.fork([(tag == bv64(0), none), (tag == bv64(1), some)])
+
+
 def m_ok_or(ctx):
     o, e = ctx.args
     tag = _opt_tag(ctx, o, "Option")
@@ -841,6 +865,7 @@ def install(eng):
     M["Option::cloned"] = m_option_cloned
     M["Option::copied"] = m_option_cloned
     M["Option::ok_or_else"] = m_ok_or_else
+    M["Option::and_then"] = m_and_then
     M["Option::ok_or"] = m_ok_or
     M["Result::map_err"] = m_map_err
     M["Option::map"] = m_map_ctor("Option", "Some", "None")
